@@ -38,6 +38,21 @@ CHECKS = {
         technique="TLA+ state machine of the dataset I/O layer (OnGrid oracle, validator design) model-checked by TLC; TLC-generated behaviours replayed on real PrecomputedIO x accessors x codecs and validated by a stateful trace spec; validator judged as a decision function",
         text="TLC explores all write histories over valid and invalid candidate tuples on three infos and proves that only on-grid positions are stored, that the validator equals the oracle predicate and that a write touches only its own key; behaviours generated by TLC (invalid writes, reads, re-opens) run on the real PrecomputedIO over file (deep/flat x gzip) and sharded accessors, raw / compressed_segmentation / jpeg, all dtypes and 1-3 channels, with a final sweep through a fresh handle; every event is checked by Trace_ChunkStore (byte-exact read-your-writes, shape, dtype, bounded JPEG error); validate_chunk_coords is judged against OnGrid on ~10^4 structured and random 6-tuples per run.",
         note=TRUST + "; JPEG tolerance constants (mean<=8, max<=64) are part of the spec; never-written reads unconstrained."),
+    "C06": dict(
+        cat="model_checking", ref="5.C06",
+        technique="TLA+ per-axis octant-assembly model (NumPy assignment semantics, provenance) model-checked by TLC; TLC-exported outcome classes and real-generator infos replayed on the real pyramid code with poisoned np.empty; level and provenance traces validated by the trace spec",
+        text="TLC explores the per-axis octant-assembly model (old sizes 1..40, old/new chunk in {1,2,4,8,16}, factor 1|2) and proves the outcome classes, Correct => level = global downscale (provenance and value level), the closed form and the 2-D factorisation; every class and infos from the real generator are run through the real compute_dyadic_scales twice with np.empty poisoned by two different patterns (3 downscaling methods, 1-3 channels, raw/compressed_segmentation, deep/flat/gzip/sharded) and each transition is judged by Trace_PyramidAssembly against the implementation's own downscaler applied to the whole stored previous level; provenance traces through recording reader/writer objects on coordinate-coded volumes.",
+        note=TRUST + "; silent corruption is a verdict only for infos the real generator produced or pairs processable by design; hand-made incompatible pairs may raise."),
+    "C07": dict(
+        cat="model_checking", ref="5.C07",
+        technique="TLA+ oracle (OutShape, Stride, Majority, exact BlockMean half-even with edge/constant completion) and pairwise half-sum design model-checked by TLC; TLC-enumerated small arrays and seeded arrays run on the real downscalers and judged by the trace spec",
+        text="TLC proves that the pairwise half-sum design equals the exact BlockMean (half-even, edge/constant completion) and that InRange follows for all three methods on all small arrays (<= 3 per axis over {0,1,max}); all TLC-enumerated small-scope arrays and seeded arrays (shape 1..6 incl. odd and size-1 axes, 1-2 channels, the five Neuroglancer dtypes, type limits, all factor triples per method, four outside values) are run on the real downscalers and judged against OutShape, DType, InRange, BlockMean / Majority / Stride.",
+        note=TRUST + "; float32 data restricted to dyadic values with exactly representable means; known finding: uint64 averaging above 2^50 (float64 work type)."),
+    "C08": dict(
+        cat="model_checking", ref="5.C08",
+        technique="TLA+ oracle ValidPyramid + exponent-space transcription of the generator model-checked by TLC; real fill_scales_for_dyadic_pyramid / generate-scales-info outputs judged by the trace spec, transcription compared as DRIFT",
+        text="TLC evaluates ValidPyramid (distinct keys, size/resolution rule, factor steps, power-of-two chunk sizes near the target, last scale within two chunks, isotropy order and bound, every consecutive pair assemblable) on the exponent-space transcription of the generator over ~650k inputs (switch positions proved/refuted); the same input product (sizes to 10^9, rational resolutions to 40:1 and fractional, targets 2..256, max_scales, types/encodings) is fed to the real fill_scales_for_dyadic_pyramid and generate-scales-info and the real output (valid JSON, accepted by PrecomputedIO) is judged by ValidPyramid in Trace_ScaleGen.",
+        note=TRUST + "; resolutions are small rationals x 10^s with exact ratios; only isotropy clauses (i) and (ii) of DESIGN 5.C08 are demanded; unsatisfiable encoder requests are not judged."),
     "C09": dict(
         cat="model_checking", ref="5.C09",
         technique="TLA+ definition of the compressed Morton code and routing model-checked by TLC (injective, bounded, monotone, mask algebra at reduced width); real get_cmc / shard key / file name results judged by the TLC trace spec on bit sequences",
